@@ -243,6 +243,10 @@ func (c *Ctx) PanicSites(fn *ssa.Function) []*PanicSite {
 				if c.pointerFromData(o, x.X) {
 					add(in, "nilfield", x.X, nil, nil, "("+ex(x.X)+")."+fieldName(x))
 				}
+				// dereference of an errors.As target: the variable is nil unless that errors.As call returned true
+				if cell := asTargetCell(x.X); cell != nil {
+					add(in, "astarget", cell, nil, nil, "("+cell.Comment+")."+fieldName(x)+" (errors.As target)")
+				}
 			case *ssa.UnOp:
 				if x.Op == token.MUL && c.pointerFromData(o, x.X) {
 					if _, isStruct := x.X.Type().Underlying().(*types.Pointer).Elem().Underlying().(*types.Struct); isStruct {
@@ -253,6 +257,44 @@ func (c *Ctx) PanicSites(fn *ssa.Function) []*PanicSite {
 		}
 	}
 	return out
+}
+
+// asTargetCell: p is loaded from a local pointer variable whose address is handed to errors.As and which is
+// never assigned otherwise (it is nil unless an errors.As call filled it).
+func asTargetCell(p ssa.Value) *ssa.Alloc {
+	ld, ok := p.(*ssa.UnOp)
+	if !ok || ld.Op != token.MUL {
+		return nil
+	}
+	cell, ok := ld.X.(*ssa.Alloc)
+	if !ok || cell.Referrers() == nil {
+		return nil
+	}
+	isTarget := false
+	for _, r := range *cell.Referrers() {
+		switch y := r.(type) {
+		case *ssa.MakeInterface:
+			if y.Referrers() != nil {
+				for _, r2 := range *y.Referrers() {
+					if call, ok := r2.(*ssa.Call); ok {
+						if f := call.Call.StaticCallee(); f != nil && f.Pkg != nil && f.Pkg.Pkg.Path() == "errors" && f.Name() == "As" {
+							isTarget = true
+						}
+					}
+				}
+			}
+		case *ssa.Store:
+			if y.Addr == ssa.Value(cell) {
+				if k, isConst := y.Val.(*ssa.Const); !isConst || !k.IsNil() {
+					return nil // assigned explicitly somewhere: not only an errors.As target
+				}
+			}
+		}
+	}
+	if !isTarget {
+		return nil
+	}
+	return cell
 }
 
 func fieldName(fa *ssa.FieldAddr) string {
@@ -378,6 +420,23 @@ func (c *Ctx) Discharge(s *PanicSite, depth int) (bool, string) {
 	switch s.Kind {
 	case "panic":
 		return false, "explicit panic reachable from a request"
+	case "astarget":
+		cell := s.X
+		filled := &Cond{Name: "errors.As filled the target", Match: func(f *Fact, _ *Origins) bool {
+			if f.Kind != "bool" || !f.Pos || f.A == nil || f.A.K != "call" || f.A.Call == nil {
+				return false
+			}
+			cc := f.A.Call.Common()
+			if fn := cc.StaticCallee(); fn == nil || fn.Pkg == nil || fn.Pkg.Pkg.Path() != "errors" || fn.Name() != "As" || len(cc.Args) != 2 {
+				return false
+			}
+			mi, ok := cc.Args[1].(*ssa.MakeInterface)
+			return ok && mi.X == cell
+		}}
+		if ok, _ := o.Requires(s.Instr, filled); ok {
+			return true, "behind errors.As(err, &target) == true"
+		}
+		return false, "the errors.As target may still be nil here: the dereference is reachable without that errors.As call having returned true"
 	case "assert":
 		return false, "unchecked type assertion"
 	case "div":
